@@ -175,19 +175,6 @@ func VH_C15_GrpcStep() {
 	vStepCheck(tail, rec, buf, n, err, m, c.nextMsg, len(wire)-pc.off, len(wire))
 }
 
-// VH_C15_TcpStep: NoiseConn.Read (bytes.Buffer carry-over, real code).
-func VH_C15_TcpStep() {
-	ini, rsp := vMachines()
-	rec, wire := vOneRecord(ini, vParam("minrec", 1))
-	pc := &vPipeConn{buf: wire}
-	c := &NoiseConn{conn: pc, noise: rsp}
-	tail := vTail()
-	c.readBuf.Write(tail)
-	buf, m := vBuf()
-	n, err := c.Read(buf)
-	vStepCheck(tail, rec, buf, n, err, m, c.readBuf.Bytes(), len(wire)-pc.off, len(wire))
-}
-
 // vCtl is a controlConn whose ReceiveControlMsg delivers one MsgData record.
 type vCtl struct {
 	vPipeConn
@@ -361,4 +348,45 @@ func VH_C15_KitReads() {
 		pos += n
 	}
 	vReach("kit-reads")
+}
+
+// VH_C15_TcpDuplex: the TCP-style secured connection used in both directions
+// at once, behaviourally: a record of symbolic length arrives; a Read with a
+// buffer of symbolic size takes a part of it; the same endpoint then writes a
+// short reply; the following Read must continue exactly where the first one
+// stopped (reading and writing do not disturb each other), and the reply
+// decrypts on the peer.
+func VH_C15_TcpDuplex() {
+	ini, rsp := vMachines()
+	rec, wire := vOneRecord(ini, 1)
+	pc := &vPipeConn{buf: wire, out: make([]byte, 0, vParam("wirecap", 100))}
+	c := &NoiseConn{conn: pc, noise: rsp}
+	j := vInt("j")
+	pos := 0
+	for r := 0; r < 2 && pos < len(rec); r++ {
+		m := vInt("bufsize")
+		vAssume(m >= 1 && m <= 70000)
+		buf := make([]byte, m)
+		n, err := c.Read(buf)
+		vAssert(err == nil, "Read failed on a healthy stream with unread data")
+		if err != nil {
+			return
+		}
+		vAssert(n >= 1 && n <= m && pos+n <= len(rec), "Read reported no bytes, more than the buffer holds, or more than was written")
+		if n < 1 || n > m || pos+n > len(rec) {
+			return
+		}
+		if j >= 0 && j < n {
+			vAssert(buf[j] == rec[pos+j], "bytes read differ from the bytes written (a write in between disturbed the unread data)")
+		}
+		pos += n
+		if r == 0 {
+			reply := vBytes("reply", vIntRange("replylen", 0, 3))
+			k, werr := c.Write(reply)
+			vAssert(werr == nil && k == len(reply), "Write of a short reply failed")
+			got, rerr := ini.ReadMessage(&vPipeConn{buf: pc.out})
+			vAssert(rerr == nil && vBytesEq(got, reply), "the reply written between two Reads does not decrypt to what was written")
+		}
+	}
+	vReach("tcp-duplex")
 }
